@@ -41,21 +41,38 @@ ATOMS = {"var_info.has_read_write(sig)": "rw",
          "vinfo.is_written_first()": "wf"}
 
 
-def eval_chain(stmts, facts):
-    """-> name assigned to access_dict on this combination of facts"""
+class NeedChoice(Exception):
+    pass
+
+
+def truth(test, facts):
+    """value of a test over the access facts; a test that is not one of the
+    four facts is a free boolean (both values are explored)"""
+    if isinstance(test, ast.BoolOp):
+        vals = [truth(v, facts) for v in test.values]
+        return all(vals) if isinstance(test.op, ast.And) else any(vals)
+    if isinstance(test, ast.UnaryOp) and isinstance(test.op, ast.Not):
+        return not truth(test.operand, facts)
+    txt = " ".join(ast.unparse(test).split())
+    if txt in ATOMS:
+        return facts[ATOMS[txt]]
+    key = "?" + txt
+    if key not in facts:
+        raise NeedChoice(key)
+    return facts[key]
+
+
+def eval_chain_once(stmts, facts, guards):
     result = None
     for stmt in stmts:
         if isinstance(stmt, ast.If):
-            txt = " ".join(ast.unparse(stmt.test).split())
-            neg = False
-            if txt.startswith("not "):
-                neg, txt = True, txt[4:]
-            if txt not in ATOMS:
-                raise AnalysisError(f"data-movement chain tests '{txt}', "
-                                    f"which is not one of the four access "
-                                    f"facts")
-            val = facts[ATOMS[txt]] != neg
-            sub = eval_chain(stmt.body if val else stmt.orelse, facts)
+            val = truth(stmt.test, facts)
+            for node in ast.walk(stmt.test):
+                txt = " ".join(ast.unparse(node).split())
+                if txt in ATOMS or "?" + txt in facts:
+                    guards.append(txt)
+            sub = eval_chain_once(stmt.body if val else stmt.orelse, facts,
+                                  guards)
             if sub is not None:
                 result = sub
         elif isinstance(stmt, ast.Assign) and \
@@ -64,17 +81,26 @@ def eval_chain(stmts, facts):
     return result
 
 
-def guards_of_choice(stmts, facts):
-    """texts of the tests passed on the way to the chosen assignment"""
+def eval_chain_all(stmts, facts):
+    """-> list of (free choices, chosen dictionary, guards consulted)"""
     out = []
-    for stmt in stmts:
-        if isinstance(stmt, ast.If):
-            txt = " ".join(ast.unparse(stmt.test).split())
-            neg = txt.startswith("not ")
-            atom = txt[4:] if neg else txt
-            val = facts[ATOMS[atom]] != neg
-            out.append(atom)
-            out += guards_of_choice(stmt.body if val else stmt.orelse, facts)
+    todo = [dict(facts)]
+    while todo:
+        cur = todo.pop()
+        guards = []
+        try:
+            res = eval_chain_once(stmts, cur, guards)
+        except NeedChoice as need:
+            if len([k for k in cur if k.startswith("?")]) > 6:
+                raise AnalysisError("data-movement chain: too many tests "
+                                    "outside the four access facts")
+            for val in (False, True):
+                nxt = dict(cur)
+                nxt[need.args[0]] = val
+                todo.append(nxt)
+            continue
+        extra = {k[1:]: v for k, v in cur.items() if k.startswith("?")}
+        out.append((extra, res, guards))
     return out
 
 
@@ -111,7 +137,7 @@ def check(idx, run):
         if not (r or w):
             continue        # no access at all
         ncomb += 1
-        got = eval_chain(chain, facts)
+        runs = eval_chain_all(chain, facts)
         read_before_write = rw or (r and not (w and wf))
         need_in = read_before_write
         need_out = w or rw
@@ -121,8 +147,12 @@ def check(idx, run):
             want = {"read_only"}
         else:
             want = {"write_only", "readwrites"}   # copy is also safe
+        bad = [(extra, res) for extra, res, _g in runs if res not in want]
+        got = bad[0][1] if bad else runs[0][1]
+        if bad and bad[0][0]:
+            got = f"{got} (when {bad[0][0]})"
         run.check(
-            "C13.R1", got in want, cons,
+            "C13.R1", not bad, cons,
             f"has_read_write={rw} is_read={r} is_written={w} "
             f"written_first={wf}",
             f"an array with has_read_write={rw}, is_read={r}, "
@@ -131,7 +161,7 @@ def check(idx, run):
             f"it is written must be copied in, a written array copied "
             f"out)", loc(mod, chain[0]),
             sample={"rule": "C13.R1", "facts": facts, "chosen": got,
-                    "allowed": sorted(want), "ok": got in want})
+                    "allowed": sorted(want), "ok": not bad})
     run.floor("feasible access patterns", ncomb, 5)
     # R4: `write_only` (-> copyout) is only safe for an array that the
     # region writes completely: the choice has to consult the extent of the
@@ -141,11 +171,16 @@ def check(idx, run):
                           "never read"),
                          ({"rw": False, "r": True, "w": True, "wf": True},
                           "written before it is read")):
-        if eval_chain(chain, facts) != "write_only":
+        wo = [(extra, g) for extra, res, g in eval_chain_all(chain, facts)
+              if res == "write_only"]
+        if not wo:
             continue
         nwo += 1
-        guards = guards_of_choice(chain, facts)
-        extent = [g for g in guards if g not in ATOMS]
+        # the choice is acceptable if every way of reaching write_only passes
+        # a test that is not one of the four order facts
+        guards = sorted({g for _e, gs in wo for g in gs})
+        extent = [g for g in guards if g not in ATOMS] if all(
+            any(g not in ATOMS for g in gs) for _e, gs in wo) else []
         run.check(
             "C13.R4", bool(extent), cons,
             f"copyout only for completely written arrays ({label})",
